@@ -60,7 +60,15 @@ def inDecBand (dec delta evDec : F) : Bool :=
 def cosfact (dec delta : F) : F :=
   minF (Transc.cos (decMinus dec delta)) (Transc.cos (decPlus dec delta))
 
-def dRAhalf (dec delta : F) : F := minF (twoPi : F) (absF (delta / cosfact dec delta))
+/-- `dRA_half = np.amin([2π, np.fabs(delta / cosfact)])`.  A band that touches a pole has
+`cosfact = 0` in exact arithmetic; IEEE gives `delta / 0 = inf` (and `delta / 6e-17` for the rounded
+`cos(π/2)`), hence the whole RA ring `2π`.  The division by zero is therefore modelled explicitly
+(Lean's `x / 0 = 0` would give the opposite); on `Float` both branches agree with numpy. -/
+def dRAhalf (dec delta : F) : F :=
+  let c := cosfact dec delta
+  if c < 0 then minF (twoPi : F) (absF (delta / c))
+  else if 0 < c then minF (twoPi : F) (absF (delta / c))
+  else (twoPi : F)
 
 /-- RA distance as coded in `SpatialBoxEventSelectionMethod` -/
 def raDistBox (srcRa evRa : F) : F :=
